@@ -169,6 +169,28 @@ static void t_between(const char *s) {
 
 /* enumerate all strings of length <= maxlen over alphabet; the case number = index; shards by index */
 typedef void (*strfn)(const char *);
+/* formatted duplicate / append: the result is exactly what vsnprintf would produce, for every length incl. the internal buffer sizes 1024*2^k */
+static void t_format(size_t len) {
+    char *src = hm_alloc(len + 1); for (size_t i = 0; i < len; i++) src[i] = (char)('A' + (i * 7 + len) % 26); src[len] = 0;
+    vf_log("qstrdupf/qstrcatf with a %zu-byte argument", len);
+    char *d = qstrdupf("%s", src);
+    if (!d) bad("qstrdupf", "null", "", "returned NULL for a %zu-byte result", len);
+    else { if (strlen(d) != len || memcmp(d, src, len)) bad("qstrdupf", "wrong", "", "result of length %zu for \"%%s\" with a %zu-byte argument (tail \"%.8s\")", strlen(d), len, d + (strlen(d) > 8 ? strlen(d) - 8 : 0)); free(d); }
+    if (len >= 5) { d = qstrdupf("<%s|%d>", src + 5, 42);       /* total length == len */
+        char *e = hm_alloc(len + 1); snprintf(e, len + 1, "<%s|%d>", src + 5, 42);
+        if (!d || strcmp(d, e)) bad("qstrdupf", "wrong", "", "\"<%%s|%%d>\" with total length %zu: got length %zu", len, d ? strlen(d) : (size_t)0);
+        free(d); hm_free(e); }
+    static const char *PRE[] = {"", "x", "prefix:"};
+    for (int p = 0; p < 3; p++) { size_t pl = strlen(PRE[p]); char *buf = hm_alloc(pl + len + 1 + 4); memcpy(buf, PRE[p], pl + 1); memset(buf + pl + len + 1, 0x5A, 4);   /* exact room + 4 guard bytes */
+        char *r = qstrcatf(buf, "%s", src);
+        if (r != buf) bad("qstrcatf", "return", PRE[p], "did not return the destination");
+        else if (strlen(buf) != pl + len || memcmp(buf, PRE[p], pl) || memcmp(buf + pl, src, len)) bad("qstrcatf", "wrong", PRE[p], "appended %zu bytes instead of %zu", strlen(buf) - pl, len);
+        for (int g = 0; g < 4; g++) if ((unsigned char)buf[pl + len + 1 + g] != 0x5A) { bad("qstrcatf", "overrun", PRE[p], "wrote beyond the room the result needs"); break; }
+        hm_free(buf); }
+    vf_count("evaluations", 1); vf_count("format_lengths", 1); vf_distinct("distinct", VF_H0 + 4242 + len);
+    hm_free(src);
+}
+
 static long enumerate(const char *alpha, int maxlen, strfn f, long base, const char *what) {
     size_t k = strlen(alpha); long idx = 0; char s[16];
     for (int len = 0; len <= maxlen; len++) {
@@ -209,6 +231,10 @@ int main(int argc, char **argv) {
                   vf_cur_case = base + idx; vf_cur_op = 0; t_replace(src, tok, word);
                   vf_distinct("distinct", vf_hash(word, (size_t)l3, vf_hash(tok, (size_t)l2, vf_hash(src, (size_t)l1, VF_H0 + 99)))); } } } } } }
       vf_count("replace_triples", vf_mine(base) ? idx : 0); base += 100000000; }
+    /* formatted duplicate / append: every length 0..80 and 2^k-3 .. 2^k+3 for k = 8..17 (the growth steps of the internal buffer) */
+    { long idx = 0; for (size_t l = 0; l <= 80; l++, idx++) if (vf_mine(base + idx)) { vf_case_begin(base + idx, "format length %zu", l); t_format(l); }
+      for (int k = 8; k <= (L >= 7 ? 17 : 14); k++) for (long dlt = -3; dlt <= 3; dlt++, idx++) if (vf_mine(base + idx)) { size_t l = (size_t)((1L << k) + dlt); vf_case_begin(base + idx, "format length %zu", l); t_format(l); }
+      base += 100000000; }
     /* random longer inputs */
     long nrand = vf_arg_long("random", 4000);
     for (long i = 0; i < nrand; i++) {
